@@ -23,6 +23,13 @@ items
                                                _dispatch_telemetry and the real call-state cache (hit, other worker,
                                                cache disabled, expired entry): one valid record per request, all
                                                with the stream id minted at init
+  * size_capped_record_schema_valid            the real VgiAccessLogFormatter.format under any cap 1..4096: every shedding
+                                               stage (incl. the record_too_large sentinel) still yields a schema-valid
+                                               record with the call's status, full error_message and stream_id
+  * http_init_record_matches_client_outcome    the real _run_http_producer_init / _run_http_exchange_init under the real init
+                                               shell: method / header write / first turn failing => record status == client
+  * pipe_stream_shell_one_record_status_matches the real RpcServer._serve_stream (wire stubbed): exactly one record, status ==
+                                               what the client is sent, incl. a declared header that cannot be written
 """
 
 from __future__ import annotations
@@ -51,8 +58,9 @@ BOUNDS = (
 )
 OUTSIDE = (
     "the bodies of the HTTP turn helpers (_run_http_producer_turn/_run_http_exchange_turn/_run_http_*_init are stubs "
-    "reporting through `outcome`), the pipe stream shell and the HTTP unary/upload shells (C04/C10/C15 harnesses); "
-    "histories longer than init + one continuation; VgiAccessLogFormatter size shedding; json.dumps of the "
+    "reporting through `outcome`), the pipe stream shell beyond one producer tick, exchange streams on the pipe, and "
+    "the HTTP unary/upload shells (C04/C10/C15 harnesses); histories longer than init + one continuation; "
+    "VgiAccessLogFormatter size caps above 4096 bytes; json.dumps of the "
     "payload; request_data Arrow round trip; requests rejected before dispatch (no record by design); "
     "messages between len %d and the cap" % _L
 )
@@ -296,7 +304,7 @@ class _Resp(_Fake):
 def _emit_and_collect(
     *, via_sink: bool, stream: bool, has_sid: bool, has_request: bool, status: str, error_type: str, error_message: str,
     cancelled: bool, http_status: int | None = None, stats: CallStatistics | None = None, request_state: bytes | None = None,
-    response_state: bytes | None = None, content_length: int | None = None,
+    response_state: bytes | None = None, content_length: int | None = None, claims: dict | None = None,
 ) -> list:  # fmt: skip
     """Drive the real _emit_access_log the way a dispatch shell does; return the formatter payloads of all records."""
     del _ACCESS.records[:]
@@ -309,7 +317,7 @@ def _emit_and_collect(
     toks.append((common._current_request_batch, common._current_request_batch.set(b"ARROW-IPC-BYTES" if has_request else None)))
     toks.append((common._current_request_id, common._current_request_id.set("req-1")))
     try:
-        auth = AuthContext(domain=None, authenticated=False)
+        auth = AuthContext(domain="jwt", authenticated=True, principal="alice", claims=claims) if claims else AuthContext(domain=None, authenticated=False)
         _emit(
             "Proto", "meth", "stream" if stream else "unary", "srv1", auth, {"remote_addr": "10.0.0.1"}, 12.345, status,  # type: ignore[arg-type]
             error_type, error_message=error_message, http_status=http_status, stats=stats, server_version="1.0",
@@ -387,6 +395,16 @@ class _XchState(ExchangeState):
         out.emit_pydict({"i": [self.n]})
 
 
+from vgi_rpc.utils import ArrowSerializableDataclass as _ArrowSerializableDataclass
+
+
+@_dataclass(frozen=True)
+class _Hdr(_ArrowSerializableDataclass):
+    """Declared stream header of the replay service (hgen / hxch)."""
+
+    total: int
+
+
 class _ReplayProtocol(_Protocol):
     def boom(self, n: int) -> int: ...
 
@@ -394,10 +412,17 @@ class _ReplayProtocol(_Protocol):
 
     def xch(self, n: int) -> Stream[_XchState]: ...
 
+    def hgen(self, n: int) -> Stream[_GenState, _Hdr]: ...
+
+    def hxch(self, n: int) -> Stream[_XchState, _Hdr]: ...
+
+
+_STREAM_METHODS = ("gen", "xch", "hgen", "hxch")
+
 
 class _ReplayImpl:
-    def __init__(self, fail: bool, msg: str, bad_result: object, etype: object = None, init_fails: bool = False) -> None:
-        self.fail, self.msg, self.bad_result, self.init_fails = fail, msg, bad_result, init_fails
+    def __init__(self, fail: bool, msg: str, bad_result: object, etype: object = None, init_fails: bool = False, header: str = "") -> None:
+        self.fail, self.msg, self.bad_result, self.init_fails, self.header = fail, msg, bad_result, init_fails, header
         self.etype = etype if isinstance(etype, str) and etype.isidentifier() else ""
         _REPLAY_EXC["etype"], _REPLAY_EXC["msg"] = self.etype, msg
 
@@ -418,9 +443,24 @@ class _ReplayImpl:
             _raise(self.etype, self.msg)
         return Stream(output_schema=_REPLAY_SCHEMA, state=_XchState(fail=self.fail), input_schema=_REPLAY_SCHEMA)
 
+    def _hdr(self) -> _Hdr:
+        # "bad": a field value that does not fit its declared Arrow type — the header cannot be serialised
+        return _Hdr(total="many") if self.header == "bad" else _Hdr(total=4)  # type: ignore[arg-type]
+
+    def hgen(self, n: int) -> Stream[_GenState, _Hdr]:
+        if self.init_fails:
+            _raise(self.etype, self.msg)
+        return Stream(output_schema=_REPLAY_SCHEMA, state=_GenState(fail=self.fail), header=self._hdr())
+
+    def hxch(self, n: int) -> Stream[_XchState, _Hdr]:
+        if self.init_fails:
+            _raise(self.etype, self.msg)
+        return Stream(output_schema=_REPLAY_SCHEMA, state=_XchState(fail=self.fail), input_schema=_REPLAY_SCHEMA, header=self._hdr())
+
 
 def _real_run(transport: str, debug: bool, kind: str, fail: bool, msg: str, cancel: bool = False, bad_result: object = False, cache_miss: bool = False,
-              etype: object = None, init_fails: bool = False, producer: bool = True, token_ttl: int | None = None) -> tuple[list, str]:  # fmt: skip
+              etype: object = None, init_fails: bool = False, producer: bool = True, token_ttl: int | None = None,
+              max_record_bytes: int | None = None, header: str = "") -> tuple[list, str]:  # fmt: skip
     """Un-stubbed public API: a real RpcServer served over an in-memory pipe or the real HTTP app (falcon test client),
     real logging with the real VgiAccessLogFormatter.  Returns (parsed vgi_rpc.access records of the call, what the client saw)."""
     import warnings
@@ -430,15 +470,18 @@ def _real_run(transport: str, debug: bool, kind: str, fail: bool, msg: str, canc
     P = _ReplayProtocol
 
     def Impl() -> _ReplayImpl:  # noqa: N802
-        return _ReplayImpl(fail, msg, bad_result, etype, init_fails)
+        return _ReplayImpl(fail, msg, bad_result, etype, init_fails, header)
 
     _REAL_INFO["posts"] = None
+    _REAL_INFO["blocked"] = False
+    fmt = lu.VgiAccessLogFormatter() if max_record_bytes is None else lu.VgiAccessLogFormatter(max_record_bytes=max_record_bytes)
+    hp = "h" if header else ""
 
     lines: list[str] = []
 
     class H(logging.Handler):
         def emit(self, record: logging.LogRecord) -> None:
-            lines.append(lu.VgiAccessLogFormatter().format(record))
+            lines.append(fmt.format(record))
 
     seen = ["ok"]
 
@@ -447,7 +490,7 @@ def _real_run(transport: str, debug: bool, kind: str, fail: bool, msg: str, canc
             if kind == "unary":
                 proxy.boom(n=1)  # type: ignore[attr-defined]
             elif not producer:
-                session = proxy.xch(n=1)  # type: ignore[attr-defined]
+                session = getattr(proxy, hp + "xch")(n=1)
                 one = AnnotatedBatch(batch=_pa.RecordBatch.from_pydict({"i": [1]}, schema=_REPLAY_SCHEMA))
                 try:
                     session.exchange(one)
@@ -459,7 +502,7 @@ def _real_run(transport: str, debug: bool, kind: str, fail: bool, msg: str, canc
                     if not cancel:
                         session.close()
             else:
-                session = proxy.gen(n=1)  # type: ignore[attr-defined]
+                session = getattr(proxy, hp + "gen")(n=1)
                 it = iter(session)
                 next(it)
                 if cancel:
@@ -478,7 +521,7 @@ def _real_run(transport: str, debug: bool, kind: str, fail: bool, msg: str, canc
     logging.disable(logging.NOTSET)
     lg.addHandler(h)
     lg.setLevel(logging.DEBUG if debug else logging.INFO)
-    try:
+    def run() -> None:
         with warnings.catch_warnings():
             warnings.simplefilter("ignore")
             if transport == "pipe":
@@ -502,27 +545,41 @@ def _real_run(transport: str, debug: bool, kind: str, fail: bool, msg: str, canc
 
                 def counting_post(path: str = "/", *a: object, **kw: object) -> object:
                     tail = str(path).rstrip("/").rsplit("/", 2)[-2:]
-                    if tail[-1] in ("boom", "init", "exchange") and (tail[-1] == "boom" or tail[0] in ("gen", "xch")):
+                    if tail[-1] in ("boom", "init", "exchange") and (tail[-1] == "boom" or tail[0] in _STREAM_METHODS):
                         posts.append(tail)
                     return real_post(path, *a, **kw)
 
                 inner.simulate_post = counting_post  # type: ignore[method-assign]
-                with http_connect(P, client=client) as proxy:
-                    drive(proxy)
-                _REAL_INFO["posts"] = len(posts)
+                try:
+                    with http_connect(P, client=client) as proxy:
+                        drive(proxy)
+                finally:
+                    _REAL_INFO["posts"] = len(posts)
+
+    try:
+        # in a thread with a deadline: a serve loop that dies without a reply leaves a pipe client blocked on its read
+        # for ever — that client observes a failure, and the replay must be able to say so
+        import threading
+
+        th = threading.Thread(target=run, daemon=True)
+        th.start()
+        th.join(20)
+        if th.is_alive():
+            seen[0] = "error"
+            _REAL_INFO["blocked"] = True
     finally:
         lg.removeHandler(h)
         lg.setLevel(old_level)
         logging.disable(old_disable)
     recs = [json.loads(x) for x in lines]
-    return [r for r in recs if r.get("method") in ("boom", "gen", "xch")], seen[0]
+    return [r for r in recs if r.get("method") == "boom" or r.get("method") in _STREAM_METHODS], seen[0]
 
 
 def _judge_real(transport: str, kind: str, fail: bool, msg: str, cancel: bool, recs: list, seen: str, note: str = "", etype: object = None) -> str | None:
     """The property, on real records: one record per dispatched call, schema-valid, status = client outcome, one stream id."""
     import jsonschema
 
-    what = f"{transport} {kind} call" + (f" raising ValueError({msg!r})" if fail else "") + (" cancelled by the client" if cancel else "") + note
+    what = f"{transport} {kind} call" + (f" raising ValueError({(msg if len(msg) <= 40 else msg[:40] + '…')!r})" if fail else "") + (" cancelled by the client" if cancel else "") + note
     validator = jsonschema.Draft202012Validator(_SCHEMA)
     if not recs:
         return f"{what}: no vgi_rpc.access record at all"
@@ -756,6 +813,9 @@ class _NullWriter(_Fake):
     def __exit__(self, *a: object) -> bool:
         return False
 
+    def write_batch(self, *a: object, **k: object) -> None:
+        return None
+
 
 def _stub_new_ipc_stream(sink: object, schema: object) -> _NullWriter:
     return _NullWriter()
@@ -831,8 +891,14 @@ class _FakeServer(_Fake):
     def __init__(self, impl: object) -> None:
         self._impl = impl
 
+    _ipc_validation = None
+    _transport_kind = None
+
     def _prepare_method_call(self, info: object, kwargs: dict) -> tuple:
         return _FakeSink(), AuthContext(domain=None, authenticated=False), {}
+
+    def _drain_unopened_stream_input(self, *a: object, **k: object) -> None:
+        return None
 
 
 def _replay_unary_shell(args: dict) -> str | None:
@@ -1004,6 +1070,7 @@ def _stub_turn(app, **kw):  # noqa: ANN001
         outcome.status = "error"
         outcome.error_type = "ValueError"
         outcome.error_message = "turn failed"
+        _HIST["turn_reported_error"] = True  # the real helper answers this turn with an in-band error batch
     return _BytesIO(b"")
 
 
@@ -1016,6 +1083,9 @@ def _stub_init_tail(app, **kw):  # noqa: ANN001
 class _HistSink(_Fake):
     def __init__(self, server_id: str = "") -> None:
         self.server_id = server_id
+
+    def flush_contents(self, *a: object, **k: object) -> None:
+        return None
 
 
 class _HistReader(_Fake):
@@ -1218,3 +1288,296 @@ def http_stream_records_share_stream_id(init_fails: bool, producer: bool, kind: 
     finally:
         common._current_request_batch.reset(rb_tok)
         common._current_stream_id.reset(sid_tok)
+
+
+# ---------------------------------------------------------------------------
+# (6) the size cap of VgiAccessLogFormatter: whatever it sheds, the line it writes is still one schema-valid
+#     record of the same call (same status, full error_message, the stream's stream_id)
+# ---------------------------------------------------------------------------
+
+_LONG_MSG = "E" * 600
+_BIG_CLAIMS = {"sub": "alice", "groups": "g" * 300}
+SIG_SENTINEL = "C34:size-capped-record-schema-invalid"
+
+
+def _replay_capped(args: dict) -> str | None:
+    transport = "http" if args.get("via_sink") else "pipe"
+    kind = "stream" if args.get("stream") else "unary"
+    fail = bool(args.get("is_err"))
+    msg = _LONG_MSG if args.get("long_msg") else "boom"
+    recs, seen = _real_run(transport, bool(args.get("debug")), kind, fail, msg, max_record_bytes=int(args.get("cap", 1)))
+    return _judge_real(transport, kind, fail, msg, False, recs, seen, f" (formatter cap {args.get('cap')} bytes)")
+
+
+@cond(q=120, t=240, stubs=_STUBS, encoded=[lu.VgiAccessLogFormatter.format, srv._emit_access_log], replay=_replay_capped, signature=lambda args, conc: SIG_SENTINEL,
+      bound="max_record_bytes any int 1..4096 (every shedding stage incl. the sentinel); unary/stream, ok/error with a short or 600-char message, claims or none, DEBUG payload or not; direct emission")
+def size_capped_record_schema_valid(cap: int, stream: bool, is_err: bool, long_msg: bool, has_claims: bool, debug: bool) -> bool:
+    """
+    pre: 1 <= cap <= 4096
+    post: _
+    """
+    if is_open(SIG_SENTINEL) and stream:
+        return True
+    msg = _LONG_MSG if long_msg else "boom"
+    status = "error" if is_err else "ok"
+    _HOLD["debug"] = debug
+    try:
+        payloads = _emit_and_collect(
+            via_sink=False, stream=stream, has_sid=stream, has_request=not stream, status=status, error_type="ValueError" if is_err else "",
+            error_message=msg if is_err else "", cancelled=False, claims=_BIG_CLAIMS if has_claims else None,
+        )  # fmt: skip
+    finally:
+        _HOLD["debug"] = False
+    if len(payloads) != 1 or len(_ACCESS.records) != 1:
+        return False
+    line = lu.VgiAccessLogFormatter(max_record_bytes=cap).format(_ACCESS.records[0])
+    out = json.loads(line)
+    if not _VALID(out):
+        return False
+    if out.get("status") != status or out.get("method_type") != ("stream" if stream else "unary"):
+        return False
+    if stream and out.get("stream_id") != _SID:
+        return False  # all records of one stream share one stream_id — also the one that had to be cut down
+    if is_err and out.get("error_message") != msg:
+        return False  # spec 5b: error_message MUST NOT be truncated
+    return True
+
+
+# ---------------------------------------------------------------------------
+# (7) HTTP /init with the real init tails (_run_http_producer_init / _run_http_exchange_init): whatever fails
+#     while the init response is put together (the method, the declared stream header, the first producer turn),
+#     the one record of the request says what the client is told
+# ---------------------------------------------------------------------------
+
+SIG_HEADER = "C34:stream-header-failure-not-logged-as-error"
+
+
+def _stub_write_stream_header(dest, header, *a, **k):  # noqa: ANN001, ANN002, ANN003
+    """Contract of _write_stream_header: serialise the header dataclass into its own IPC stream on *dest*; raises when
+    the header cannot be serialised or externalised (nothing is written then)."""
+    if _HIST["header_fails"]:
+        raise ValueError("header cannot be serialised")
+    _HIST["headers_written"] = _HIST.get("headers_written", 0) + 1
+    dest.write(b"HEADER-IPC-STREAM")
+
+
+class _FakePa(_Fake):
+    @staticmethod
+    def KeyValueMetadata(d: dict) -> dict:  # noqa: N802
+        return d
+
+
+_hist_producer_init = reglobalize(hs._run_http_producer_init, _write_stream_header=_stub_write_stream_header, _run_http_producer_turn=_stub_turn)
+_hist_exchange_init = reglobalize(
+    hs._run_http_exchange_init, _write_stream_header=_stub_write_stream_header, _mint_cursor_token=lambda *a, **k: (b"CURSOR", b"state-bytes"),
+    new_ipc_stream=_stub_new_ipc_stream, empty_batch=lambda schema: None, _record_output=lambda batch: None, pa=_FakePa(),
+)  # fmt: skip
+_hist_init_real_tails = reglobalize(
+    hs._run_stream_init_sync, _dispatch_telemetry=_hist_telemetry, _read_request=lambda stream, validation, external: ("gen", {}),
+    _deserialize_params=lambda *a, **k: None, _validate_call_signature=lambda *a, **k: None, _validate_params=lambda *a, **k: None,
+    _get_auth_and_metadata=_hist_auth, _ClientLogSink=_HistSink, _mint_call_token=_stub_mint_call_token, time=_HistClock(),
+    _run_http_producer_init=_hist_producer_init, _run_http_exchange_init=_hist_exchange_init,
+)  # fmt: skip
+
+
+def _replay_init_tail(args: dict) -> str | None:
+    has_header = bool(args.get("has_header"))
+    header = ("bad" if args.get("header_fails") else "ok") if has_header else ""
+    init_fails, producer = bool(args.get("init_fails")), bool(args.get("producer", True))
+    fail = init_fails or bool(args.get("turn_fails"))
+    msg = "init failed" if init_fails else "turn failed"
+    recs, seen = _real_run("http", False, "stream", fail, msg, init_fails=init_fails, producer=producer, header=header)
+    note = " (%s stream%s)" % ("producer" if producer else "exchange", ", declared header that cannot be serialised" if header == "bad" else (", with header" if header else ""))
+    return _judge_real("http", "stream", fail and header != "bad", msg, False, recs, seen, note)
+
+
+@cond(q=60, t=120, stubs=_HIST_STUBS + ["_write_stream_header := contract stub (writes the header stream, or raises before writing anything)", "_mint_cursor_token := constant; pa.KeyValueMetadata := dict"],
+      replay=_replay_init_tail, signature=lambda args, conc: SIG_HEADER if args.get("has_header") and args.get("header_fails") and not args.get("init_fails") else "C34:http-init-record-status-mismatch",
+      encoded=[hs._run_stream_init_sync, hs._run_http_producer_init, hs._run_http_exchange_init, hs._dispatch_telemetry, srv._emit_access_log],
+      bound="one /init request: producer or exchange stream x header declared or not x {method raises, header cannot be written, first producer turn fails, all fine}")
+def http_init_record_matches_client_outcome(producer: bool, has_header: bool, header_fails: bool, init_fails: bool, turn_fails: bool) -> bool:
+    """
+    pre: True
+    post: _
+    """
+    if is_open(SIG_HEADER) and has_header and header_fails and not init_fails:
+        return True
+    _HIST["now"] = 1000
+    _HIST["auth"] = AuthContext(domain="jwt", authenticated=True, principal="alice")
+    _HIST["turn_fails"] = turn_fails
+    _HIST["turn_reported_error"] = False
+    _HIST["header_fails"] = header_fails
+    _HIST["headers_written"] = 0
+    del _HIST["minted"][:]
+    del _HIST["init_kwargs"][:]
+    del _ACCESS.records[:]
+    impl = _HistImpl(producer, init_fails)
+    worker = _HistApp(impl, 8, 3600)
+    info = _HistInfo()
+    if has_header:
+        info.header_type = _Hdr  # type: ignore[assignment]
+    sid_tok = common._current_stream_id.set("")
+    rb_tok = common._current_request_batch.set(b"ARROW-IPC-BYTES")
+    try:
+        raised = False
+        try:
+            _hist_init_real_tails(worker, "gen", info, object())
+        except HarnessModelError:
+            raise
+        except Exception:  # noqa: BLE001
+            raised = True  # falcon answers with an error status: the client observes a failed init
+        recs = _collect_new_records()
+    finally:
+        _HIST["turn_fails"] = False
+        _HIST["header_fails"] = False
+        common._current_request_batch.reset(rb_tok)
+        common._current_stream_id.reset(sid_tok)
+    if len(recs) != 1 or not _VALID(recs[0]) or recs[0]["method_type"] != "stream":
+        return False
+    client_saw_error = raised or bool(_HIST["turn_reported_error"])
+    if init_fails and not raised:
+        return False
+    return (recs[0]["status"] == "error") == client_saw_error
+
+
+# ---------------------------------------------------------------------------
+# (8) the pipe stream shell (RpcServer._serve_stream): exactly one record per stream call, status == what the
+#     client is sent (an error stream / error batch, or a connection that ends without a reply, is a failure)
+# ---------------------------------------------------------------------------
+
+_PIPE: dict = {"header_fails": False, "turn_fails": False, "error_streams": [], "headers": 0}
+
+
+def _stub_write_error_stream(writer: object, schema: object, exc: BaseException, *a: object, **k: object) -> None:
+    _PIPE["error_streams"].append(exc)
+
+
+def _stub_pipe_header(dest, header, *a, **k):  # noqa: ANN001, ANN002, ANN003
+    if header is None:
+        raise TypeError("declares header type but returned header=None")
+    if _PIPE["header_fails"]:
+        raise ValueError("header cannot be serialised")
+    _PIPE["headers"] += 1
+    if hasattr(dest, "write"):
+        dest.write(b"HEADER-IPC-STREAM")
+
+
+class _PipeReader(_Fake):
+    """Client side of a producer stream: one tick, then end of input."""
+
+    def __init__(self, stream: object, validation: object = None) -> None:
+        self._left = 1
+
+    def read_next_batch_with_custom_metadata(self) -> tuple:
+        if self._left <= 0:
+            raise StopIteration
+        self._left -= 1
+        return None, None
+
+
+@_dataclass
+class _PipeState(ProducerState):
+    def produce(self, out: OutputCollector, ctx: CallContext) -> None:
+        if _PIPE["turn_fails"]:
+            raise ValueError("turn failed")
+        out.finish()
+
+
+class _PipeWriter(_Fake):
+    def write(self, data: object) -> int:
+        return 0
+
+
+class _PipeTransport(_Fake):
+    reader = None
+
+    def __init__(self) -> None:
+        self.writer = _PipeWriter()
+
+
+class _PipeStreamInfo(_Fake):
+    name = "meth"
+    method_type = _StreamMethodType()
+
+    def __init__(self, has_header: bool) -> None:
+        self.header_type = _Hdr if has_header else None
+
+
+_serve_stream = reglobalize(
+    srv.RpcServer._serve_stream, time=_Clock(), _emit_access_log=_emit, new_ipc_stream=_stub_new_ipc_stream, _write_error_batch=_stub_write_error_batch,
+    _write_error_stream=_stub_write_error_stream, _write_stream_header=_stub_pipe_header, ValidatedReader=_PipeReader, ipc=_HistIpc,
+    _drain_stream=lambda reader: None, _flush_collector=lambda *a, **k: None, resolve_external_location=lambda batch, cm, *a, **k: (batch, cm),
+    resolve_shm_batch=lambda batch, cm, shm: (batch, cm, None), _coerce_input_batch=lambda batch, schema: batch, _record_input=lambda batch: None,
+)  # fmt: skip
+
+
+def _replay_pipe_stream(args: dict) -> str | None:
+    outcome, has_header = args.get("outcome", 0), bool(args.get("has_header"))
+    if outcome == 2:
+        return None  # "the method returns something that is not a Stream" has no counterpart in the typed replay service
+    header = ("bad" if outcome == 3 else "ok") if (has_header or outcome == 3) else ""
+    fail = outcome in (1, 4)
+    msg = "init failed" if outcome == 1 else "turn failed"
+    recs, seen = _real_run("pipe", False, "stream", fail, msg, init_fails=outcome == 1, header=header)
+    note = ", declared header that cannot be serialised" if header == "bad" else (", with header" if header else "")
+    if _REAL_INFO.get("blocked"):
+        note += "; the serve loop ended without a reply (client left blocked on its read)"
+    return _judge_real("pipe", "stream", fail, msg, False, recs, seen, note)
+
+
+@cond(q=60, t=120, stubs=_STUBS + ["new_ipc_stream/_write_error_batch/_write_error_stream := recorders; _write_stream_header := contract stub (writes, or raises before writing)",
+                                   "request reader := one producer tick then end of input; resolve_*/_coerce_input_batch/_flush_collector/_drain_stream := pass-through",
+                                   "_prepare_method_call := anonymous auth, empty log sink", "time := deterministic monotonic clock"],
+      encoded=[srv.RpcServer._serve_stream, srv._emit_access_log], replay=_replay_pipe_stream,
+      signature=lambda args, conc: SIG_HEADER if args.get("outcome") == 3 else "C34:pipe-stream-shell-record-mismatch",
+      bound="producer stream, header declared or not x {all fine, method raises, method returns a non-Stream, header cannot be written, the producer turn raises}")
+def pipe_stream_shell_one_record_status_matches(outcome: int, has_header: bool) -> bool:
+    """
+    pre: 0 <= outcome <= 4
+    pre: has_header or outcome != 3
+    post: _
+    """
+    if is_open(SIG_HEADER) and outcome == 3:
+        return True
+
+    class Impl:
+        def meth(self) -> object:
+            if outcome == 1:
+                raise ValueError("init failed")
+            if outcome == 2:
+                return "NOT-A-STREAM"
+            return Stream(output_schema=_REPLAY_SCHEMA, state=_PipeState(), header=_Hdr(total=4) if has_header else None)
+
+    _PIPE["header_fails"] = outcome == 3
+    _PIPE["turn_fails"] = outcome == 4
+    _PIPE["headers"] = 0
+    del _PIPE["error_streams"][:]
+    del _WIRE["error_batches"][:]
+    del _ACCESS.records[:]
+    toks = [
+        (common._current_request_batch, common._current_request_batch.set(None)),
+        (common._current_stream_id, common._current_stream_id.set("")),
+        (common._current_request_id, common._current_request_id.set("req-1")),
+    ]
+    escaped = False
+    try:
+        _serve_stream(_FakeServer(Impl()), _PipeTransport(), _PipeStreamInfo(has_header), {}, stats=CallStatistics(), shm=None)
+    except HarnessModelError:
+        raise
+    except Exception:  # noqa: BLE001
+        escaped = True  # the serve loop dies without a reply: the client observes a failure
+    finally:
+        _PIPE["header_fails"] = False
+        _PIPE["turn_fails"] = False
+        for var, tok in reversed(toks):
+            var.reset(tok)
+    payloads = [_FORMATTER._build_payload(r) for r in _ACCESS.records]
+    if len(payloads) != 1:
+        return False  # exactly one record per stream call — also when the call never got as far as its first batch
+    p = payloads[0]
+    client_saw_error = escaped or len(_PIPE["error_streams"]) > 0 or len(_WIRE["error_batches"]) > 0
+    if (outcome == 0) == client_saw_error:
+        return False
+    if not _VALID(p) or p["method_type"] != "stream":
+        return False
+    return (p["status"] == "error") == client_saw_error
